@@ -95,7 +95,11 @@
 //     for C33), MaxBlocks/MaxTxs/MaxContracts/MaxScenarios size the world, Gen
 //     replaces the evmprog configuration (e.g. Monotone for C37, Bounded when code
 //     runs without a gas limit), NoBlobs/NoSetCode/NoWithdrawals/NoUncles/NoStorage
-//     switch features off.
+//     switch features off. Collapse (opt-in, used by C34) adds to about half of the
+//     worlds an engineered contract (CollapseAddr, outside the pool) called once in the
+//     LAST block, whose stores / victim account make a two-child branch node of its
+//     storage trie / of the account trie collapse (collapse.go, World.Collapse); it is
+//     drawn after everything else, so worlds drawn without it are unchanged.
 //   - Transactions without the chain maker: draw plans with World.DrawPlan and turn
 //     them into signed transactions with Materialize(plan, &Env{...}) against any
 //     StateView (GetBalance/GetNonce - a *state.StateDB satisfies it); Env carries the
